@@ -218,8 +218,10 @@ def run(ctx) -> None:
     # D. binding demonstration: a corrupted expectation must be noticed by the comparison
     inits, steps = demo_steps
     tried = caught = 0
+    by_kind: dict = {}
     for sk, hist, r in steps:
-        if len(hist) != 1 or tried >= 60:
+        # (<= 60 cases, and <= 10 more of the array results of get_array)
+        if len(hist) != 1 or by_kind.get(r["out"] == "arr", 0) >= (10 if r["out"] == "arr" else 60):
             continue
         bad = C.corrupt(r)
         if bad is None:
@@ -233,11 +235,13 @@ def run(ctx) -> None:
         if any(kind == "violation" for kind, _ in good_log):
             continue  # a step the real code already fails (known defect): not usable for the demonstration
         tried += 1
+        by_kind[r["out"] == "arr"] = by_kind.get(r["out"] == "arr", 0) + 1
         caught += any(kind == "violation" for kind, _ in bad_log)
     # (a library so broken that hardly any step is clean is reported through its violations, not as a machinery failure)
     ctx.require((tried >= 10 or bool(ctx._violations)) and caught == tried,
                 f"binding demonstration failed: {caught}/{tried} corrupted expectations noticed")
-    ctx.extra["binding_demo"] = dict(corrupted_expectations=tried, noticed=caught)
+    ctx.require(by_kind.get(True, 0) > 0 or bool(ctx._violations), "no corrupted get_array expectation was tried")
+    ctx.extra["binding_demo"] = dict(corrupted_expectations=tried, noticed=caught, of_which_get_array=by_kind.get(True, 0))
     ctx.exhaustive = True
 
 
